@@ -74,9 +74,14 @@ Interps == {"", "linear", "cubic_spline"}
 Extras == {"", "true", "false", "constant", "bound_to_last_value"}
 DataDef(ins, t, ip, ex, rev, out) ==
   [kind |-> "data", ins |-> ins, pars |-> <<>>, csts |-> <<>>, locs |-> <<>>, out |-> out, bnd |-> <<>>, pfile |-> <<>>,
-   xs |-> t.xs, ys |-> t.ys, interp |-> ip, extra |-> ex, rev |-> rev]
+   xs |-> t.xs, ys |-> t.ys, interp |-> ip, extra |-> ex, rev |-> rev, yden |-> 1]
+\* small non-integer ordinates: the values written in the file are ys / 2^14 (they need 14 decimals; denominators stay below the bound B of MPValue)
+SmallY(d) == [d EXCEPT !.yden = 16384]
 AllDataDefs == {DataDef(<<"T">>, t, ip, ex, rev, out) : t \in Tables, ip \in Interps, ex \in Extras, rev \in BOOLEAN, out \in {"res", "E"}}
 DataDefs == {DataDef(<<>>, [xs |-> <<0>>, ys |-> <<v>>], "", "", FALSE, "res") : v \in {3, -2}}
+            \cup {SmallY(DataDef(<<>>, [xs |-> <<0>>, ys |-> <<v>>], "", "", FALSE, "res")) : v \in {3, -5}}
+            \cup {SmallY(DataDef(<<"T">>, t, ip, "", FALSE, "res")) : t \in {[xs |-> <<2>>, ys |-> <<3>>], [xs |-> <<0, 2>>, ys |-> <<1, 3>>]},
+                                                                     ip \in {"", "cubic_spline"}}
             \cup (IF Thorough THEN {d \in AllDataDefs : (d.out = "E") = (d.interp = "")}
                   ELSE {d \in AllDataDefs : /\ d.xs \in {<<0, 1, 3>>, <<2>>} /\ (d.out = "E") = (d.interp = "")
                                             /\ d.rev = (d.extra = "false") /\ d.extra \in {"", "false", "constant"}
